@@ -337,6 +337,14 @@ struct Engine
         return d && d->isOpen();
     }
 
+    qint64 buffered_bytes() const
+    {
+        if (!iosink)
+            return 0;
+        const QIODevicePtr &d = (iosink->*(&Peek::device))();
+        return d && d->isOpen() ? d->bytesToWrite() : 0;
+    }
+
     std::string foreign_name(int idx) const
     {
         std::string suf = suffix.empty() ? "" : "." + suffix;
@@ -1081,27 +1089,34 @@ struct Engine
         r.day = today();
         recs.push_back(r);
         pending.push_back(r.id);
+        const size_t w0 = written_this_op;
+        const qint64 b0 = buffered_bytes();
         if (sink)
             sink->send(lmsg);
-        if (!device_open()) {
-            // the device is closed. Did the record reach a file before that (a rotation right after the
-            // write may have moved it away and then failed to reopen), or was it refused?
+        // Was the record accepted - passed to write(2) or kept in the device's write buffer - or was it
+        // refused because the device was closed at the moment of the write (it may be open again now:
+        // a rotation right after the write reopens it)?
+        const qint64 accepted = (qint64)(written_this_op - w0) + buffered_bytes() - b0;
+        bool reached = accepted >= (qint64)r.bytes.size() + 1;
+        if (!reached && !device_open()) {
+            // the byte count can miss a record only when write(2) itself was refused; then what the
+            // directory holds decides
             std::string have;
             for (auto &r0 : op_rot)
                 have += r0.content;
             std::string A;
             logdir::read_file(active_abs, A);
             have += A;
-            bool reached = have.size() >= rec_stream(pending).size();
-            if (!reached) {
-                // refused: it never reached the file. After an injected failure that is a legitimate
-                // outcome (the file could not be reopened); in a fault-free history nothing entitles
-                // the sink to drop a record
-                if (!fault_mode && (is("C05") || is("C06") || is("C07") || is("C09")))
-                    fail("record-refused", "record r" + std::to_string(r.id) + " was dropped: the sink's file is closed although no failure was injected");
-                pending.pop_back();
-                refused++;
-            }
+            reached = have.size() >= rec_stream(pending).size();
+        }
+        if (!reached) {
+            // refused: it never reached the file. After an injected failure that is a legitimate
+            // outcome (the file could not be reopened); in a fault-free history nothing entitles
+            // the sink to drop a record
+            if (!fault_mode && (is("C05") || is("C06") || is("C07") || is("C09")))
+                fail("record-refused", "record r" + std::to_string(r.id) + " was dropped: the sink's file is closed although no failure was injected");
+            pending.pop_back();
+            refused++;
         }
     }
 
@@ -1563,7 +1578,8 @@ Result run_single(const FPlan &P, bool crash_mode, bool fault_mode, bool collect
     e.fault_mode = fault_mode;
     e.take_snapshots = crash_mode;
     e.crash_eval = crash_mode ? eval_crashes : nullptr;
-    e.setup();
+    e.setup(); // (uses the real pid for the private directory)
+    sim::set_fake_pid(4242);
     e.arm();
     e.cur_op = -1;
     e.make_sink();
@@ -1582,6 +1598,7 @@ Result run_single(const FPlan &P, bool crash_mode, bool fault_mode, bool collect
     e.res.hash = dir_hash(e.logdir_path, sim::trace_hash_now());
     e.res.crash_points = e.crash_points;
     sim::fs_disarm();
+    sim::set_fake_pid(0);
     rm_rf(e.root);
     if (sites)
         *sites = e.fault_sites;
